@@ -40,6 +40,10 @@ def group_env(g, ngroups):
     them); behaviour must not depend on whether they are set"""
     if ngroups > 1 and g == ngroups - 1:
         return {"EPSILON": "0.0001", "NUMERIC_PRECISION": "4"}
+    if ngroups > 3 and g == 1:
+        # the documented tolerance switch at a legal non-default value: exact comparisons (the reference interpreter
+        # reads the same variable)
+        return {"EPSILON": "0"}
     if ngroups > 2 and g == ngroups - 2:
         # the interpreter's optimisation switch (python -O): assert statements are compiled away - a library whose
         # behaviour lives inside an assert changes; the harness itself uses no assert for anything it decides
